@@ -105,6 +105,7 @@ def _detect_alleles(variants, var_progress, first, bam_read):
         int n = len(var_progress)
         int cigar_op                            # copy python vars here ...
         int length                              # ... for runtime optimization
+        bint anchored = False                   # previous operation aligned/inserted bases (M, =, X, I, D)
 
     # Skip variants that come before this region
     while j < n:
@@ -130,6 +131,7 @@ def _detect_alleles(variants, var_progress, first, bam_read):
         # MIDNSHPX= => 012345678. Skip for soft clipping/padding, etc.
         if cigar_op == 3:  # N operator (reference skip)
             ref_pos += length
+            anchored = False
             continue
         elif cigar_op == 4:  # S operator (soft clipping)
             query_pos += length
@@ -156,6 +158,11 @@ def _detect_alleles(variants, var_progress, first, bam_read):
             # with old implementation. Actually, it would be correct to assume ref allele here,
             # if the preivous base matched. This seems to be an artifact of normalized variants.
             if cigar_op == 2 and ref_len == 0:
+                j += 1
+                continue
+            # An insertion directly in front of the first aligned base of a block (read start, after N)
+            # cannot be judged: the base it is anchored to is not part of the alignment
+            if ref_len == 0 and var_pos == ref_pos and not anchored and cigar_op in (0, 7, 8):
                 j += 1
                 continue
 
@@ -188,6 +195,7 @@ def _detect_alleles(variants, var_progress, first, bam_read):
             handler(variant, var_entry, bam_read, ref_pos, query_pos, length)
         ref_pos = ref_end
         query_pos = query_end
+        anchored = True
 
         # Yield resolved variants from left, pop inresolvable variants
         while vqueue:
